@@ -459,4 +459,3 @@ theorem kstepD_spec (T U : ℕ) (low' : List ℕ) (nm c0 c1 c2 : ℕ) (dlow' : L
 
 end KStep
 
-#print axioms KStep.kstepD_spec
